@@ -15,14 +15,14 @@ open I18n.Generated
 
 /-! ## Pins: what the translator reads from the live module -/
 
-/-- the `_info` strings, the limit, the `*` argument type, the own error classes and `int()`'s digit limit (switched off
+/-- the `_info` character sets (dumped sorted: only membership is ever used), the limit, the `*` argument type, the own error classes and `int()`'s digit limit (switched off
     by `lib/__init__.py`) are what the model and the reference were written against -/
 theorem info_pin :
-    PyFormatTables.flagChars = ['#', '0', '-', ' ', '+'] ∧ PyFormatTables.lengthChars = ['h', 'l', 'L'] ∧
-    PyFormatTables.octCvt = ['o'] ∧ PyFormatTables.hexCvt = ['x', 'X'] ∧
-    PyFormatTables.intCvt = ['o', 'x', 'X', 'd', 'i', 'u'] ∧ PyFormatTables.floatCvt = ['e', 'E', 'f', 'F', 'g', 'G'] ∧
-    PyFormatTables.otherCvt = ['c', 's', 'r', 'a'] ∧
-    PyFormatTables.allCvt = ['o', 'x', 'X', 'd', 'i', 'u', 'e', 'E', 'f', 'F', 'g', 'G', 'c', 's', 'r', 'a', '%'] ∧
+    PyFormatTables.flagChars = [' ', '#', '+', '-', '0'] ∧ PyFormatTables.lengthChars = ['L', 'h', 'l'] ∧
+    PyFormatTables.octCvt = ['o'] ∧ PyFormatTables.hexCvt = ['X', 'x'] ∧
+    PyFormatTables.intCvt = ['X', 'd', 'i', 'o', 'u', 'x'] ∧ PyFormatTables.floatCvt = ['E', 'F', 'G', 'e', 'f', 'g'] ∧
+    PyFormatTables.otherCvt = ['a', 'c', 'r', 's'] ∧
+    PyFormatTables.allCvt = ['%', 'E', 'F', 'G', 'X', 'a', 'c', 'd', 'e', 'f', 'g', 'i', 'o', 'r', 's', 'u', 'x'] ∧
     PyFormatTables.SSIZE_MAX = 2 ^ 31 - 1 ∧ PyFormatTables.SSIZE_MAX = Spec.CPyPercent.INT_MAX ∧
     PyFormatTables.intMaxStrDigits = 0 ∧
     PyFormatTables.variableWidthType = "int" ∧ PyFormatTables.variablePrecisionType = "int" ∧
@@ -30,12 +30,12 @@ theorem info_pin :
       "ObsoleteConversion", "PrecisionRangeError", "RedundantFlag", "RedundantLength", "RedundantPrecision", "WidthRangeError"] := by
   refine ⟨rfl, rfl, rfl, rfl, rfl, rfl, rfl, rfl, by decide, by decide, rfl, by decide, by decide, by decide⟩
 
-/-- the probed type of every conversion character: CPython's requirement on the argument (`d i u o x X` an integer,
-    `e E f F g G` a real number, `c` a character or code point, `s r a` anything, `%` nothing) -/
+/-- the probed type of every conversion character (sorted by character): CPython's requirement on the argument
+    (`d i u o x X` an integer, `e E f F g G` a real number, `c` a character or code point, `s r a` anything, `%` nothing) -/
 theorem types_pin :
-    PyFormatTables.typeTable = [('o', "int"), ('x', "int"), ('X', "int"), ('d', "int"), ('i', "int"), ('u', "int"),
-      ('e', "float"), ('E', "float"), ('f', "float"), ('F', "float"), ('g', "float"), ('G', "float"),
-      ('c', "chr"), ('s', "str"), ('r', "object"), ('a', "object"), ('%', "None")] := by decide
+    PyFormatTables.typeTable = [('%', "None"), ('E', "float"), ('F', "float"), ('G', "float"), ('X', "int"), ('a', "object"),
+      ('c', "chr"), ('d', "int"), ('e', "float"), ('f', "float"), ('g', "float"), ('i', "int"), ('o', "int"), ('r', "object"),
+      ('s', "str"), ('u', "int"), ('x', "int")] := by decide
 
 /-- the model of `Conversion.__init__` evaluated by the kernel on every probed directive (conversion x flag sets x
     precision kinds x length; widths and precisions around `SSIZE_MAX`) gives the outcome and the warnings that the
@@ -45,19 +45,6 @@ theorem probes_pin :
     PyFormatTables.rangeTable.all (fun row => probe row.1 == row.2) = true := ⟨warnTable_pin, rangeTable_pin⟩
 
 /-! ## The property -/
-
-theorem parse_loop {s : List Char} {r : Result} (h : parse s = .ok r) :
-    ∃ st, loop true (s.length + 1) s [] St.init = .ok st ∧ r.seq = st.seq ∧ r.map = groups st.map ∧
-      (groups st.map).all (fun g => sameType g.2) = true := by
-  unfold parse parseW at h
-  cases hl : loop true (s.length + 1) s [] St.init with
-  | error e => rw [hl] at h; cases h
-  | ok st =>
-    rw [hl] at h
-    simp only [] at h
-    split at h
-    · rename_i hall; cases h; exact ⟨st, rfl, rfl, rfl, hall⟩
-    · cases h
 
 /-- **If the parser accepts a string, CPython formats it** when given arguments of the shape and types the parser
     reports: a tuple with a value of the reported type per entry of `seq_arguments` (an `int` for every `*`), or a mapping
@@ -83,19 +70,6 @@ theorem accept_formats {s : List Char} {r : Result} {a : Args} (hp : PlainPercen
     obtain ⟨v, hv1, hv2⟩ := m2 k es h1
     exact ⟨v, hv1, hv2 e h2⟩
   | single v => exact absurd hm (by simp [Matches])
-
-/-- the error of `parse` is the error of the loop or `ArgumentTypeMismatch` -/
-theorem parse_error {s : List Char} {e : PErr} (h : parse s = .error e) :
-    loop true (s.length + 1) s [] St.init = .error e ∨ e = .ArgumentTypeMismatch := by
-  unfold parse parseW at h
-  cases hl : loop true (s.length + 1) s [] St.init with
-  | error e' => rw [hl] at h; cases h; exact Or.inl rfl
-  | ok st =>
-    rw [hl] at h
-    simp only [] at h
-    split at h
-    · cases h
-    · cases h; exact Or.inr rfl
 
 /-- **Rejection raises only the parser's own error type** (every string, no hypothesis): never an `AssertionError`,
     `IndexError`, `ValueError`, …; `int(ch)` is only applied to one of the ten ASCII digits. -/
